@@ -257,8 +257,10 @@ def signal_reset(e):
     if e.name == 'WRMEM' and e.data['place'][0] == 'pfield' and e.data['place'][2] == 'sig':
         v = e.data['val']
         return v[0] == 'call' and v[2] in ('signal::Signal::new_async', 'signal::Signal::new_async_ptr')
-    if e.name == 'CALL' and e.data['callee'] in ('signal::Signal::reset',):
-        return True
+    if e.name == 'WRMEM' and e.data['place'][0] == 'deref' and e.data['place'][1][0] == 'call' and e.data['place'][1][2].endswith('::get_mut'):
+        # `*self.state.get_mut() = LOCKED` in a `&mut self` helper of Signal, spliced into poll
+        a = e.data['place'][1][3]
+        return bool(a) and a[0][0] in ('ref', 'rawptr') and place_has_field(a[0][1], 'sig') and place_has_field(a[0][1], 'state') and is_const(e.data['val'], 2)
     if e.name == 'CALL' and e.data['callee'].startswith('std::sync::atomic::Atomic') and e.data['callee'].endswith('::store'):
         a = e.data['args']
         if a and a[0][0] in ('ref', 'rawptr') and place_has_field(a[0][1], 'sig') and is_const(a[1], 2):
@@ -286,6 +288,13 @@ def f5(ctx):
     for p, evs in all_paths(ctx, b):
         if p.end != 'return':
             continue
+        for e in evs:
+            if signal_reset(e):
+                lbe = labels(evs, upto=e.idx)
+                # harmless only when no peer can own the signal: not registered at all, or still listed (checked under
+                # the lock that is still held)
+                if has(lbe, 'fstate', 'Waiting') and not (has(lbe, 'exists', 'T') and e.sec is not None):
+                    ctx.violate(key, p, 'the signal is re-initialised while the future is in state Waiting and a peer may own it', at=e.at, sig='rearm-while-waiting')
         sw = state_writes(evs)
         zero = [e for e, s in sw if s == 'Zero']
         if not zero:
